@@ -54,6 +54,19 @@ Theorem C05_history : forall ops : list hop,
 Proof. exact history_invariant. Qed.
 Print Assumptions C05_history.
 
+(* The generic commit step of the history machine is not vacuous: the append of Table.append_records -- new data file,
+   new manifest naming it under any of its three canonical spellings, new list carrying over ALL manifests of the current
+   snapshot -- with fresh (uuid) names always passes the step's side conditions, from every state. *)
+Theorem C05_append_commits : forall (h : hstate) (sid : Z) (name : string) (sp : nat) (mname lname : string) (mt : Z),
+  lookup (data_key name) (h_store h) = None -> lookup (man_key mname) (h_store h) = None -> lookup (man_key lname) (h_store h) = None ->
+  mname <> lname ->
+  match op_append h sid name sp mname lname mt with
+  | HCommit _ nd nm kept ln lmt _ => valid_commit h nd nm kept ln lmt = true
+  | _ => False
+  end.
+Proof. exact op_append_valid. Qed.
+Print Assumptions C05_append_commits.
+
 (* Non-vacuity: a table located at "data" (the location that made the unrepaired normalisation delete
    every live file) with two retained snapshots sharing a manifest, an orphan data file, an orphan
    manifest, a file younger than the grace period and a live transaction's file: well-formed, the run
